@@ -8,10 +8,10 @@ from engines import sweep as SW
 HARNESS = os.path.join(VERIF, 'harness', 'ch_C05.py')
 
 
-def to_sql(dialect, names, linenos=None):
+def to_sql(dialect, names, linenos=None, spelling=None):
     from engines.symtok import representatives
     L, P = SW.dialect_classes(dialect)
-    rep, lexemes = representatives(L)
+    rep, lexemes = representatives(L, spelling)
     if not linenos:
         return ' '.join(lexemes.get(n, n) for n in names)
     out, line = '', linenos[0]
